@@ -196,24 +196,30 @@ func (w *c15World) envRun(scen string, state sdk.Context, reach string) {
 	for _, blk := range c15Blockers() {
 		r := w.run(state, blk, 0, 0, false)
 		w.tr.Count("env-runs")
-		if !r.returned {
-			w.tr.Count("env-panic:" + blk.name)
-			w.panics = append(w.panics, scen+" "+blk.name+": "+r.msg)
+		w.envLine(scen, state, blk, reach, r)
+	}
+}
+
+// envLine: what a run of blk on state (no injection) did, with the inputs the model needs to predict it.
+func (w *c15World) envLine(scen string, state sdk.Context, blk c15Blocker, reach string, r c15Result) {
+	if !r.returned {
+		w.tr.Count("env-panic:" + blk.name)
+		w.panics = append(w.panics, scen+" "+blk.name+": "+r.msg)
+	}
+	switch {
+	case strings.HasPrefix(blk.name, "liquidation.BeginBlocker"), strings.HasPrefix(blk.name, "liquidationsV2.BeginBlocker"):
+		gen := 1
+		if strings.HasPrefix(blk.name, "liquidationsV2") {
+			gen = 2
 		}
-		switch {
-		case strings.HasPrefix(blk.name, "liquidation.BeginBlocker"), strings.HasPrefix(blk.name, "liquidationsV2.BeginBlocker"):
-			gen := 1
-			if strings.HasPrefix(blk.name, "liquidationsV2") {
-				gen = 2
-			}
-			capV, counter, batch, offs := w.sweepParams(state, gen)
-			w.tr.Line("hooks.env.single", scen, blk.name, reach, c15Ret(r.returned), "sweep", strconv.Itoa(capV), u(counter), u(batch), c15U64s(offs))
-			if gen == 2 {
-				w.uloopLine(scen, state, blk, reach, r)
-			}
-		default:
-			w.tr.Line("hooks.env.single", scen, blk.name, reach, c15Ret(r.returned), "plain")
+		capV, counter, batch, offs := w.sweepParams(state, gen)
+		w.tr.Line("hooks.env.single", scen, blk.name, reach, c15Ret(r.returned), "sweep", strconv.Itoa(capV), u(counter), u(batch), c15U64s(offs))
+		if gen == 2 {
+			w.uloopLine(scen, state, blk, reach, r)
 		}
+		w.postLine(scen, state, blk, reach, r, gen)
+	default:
+		w.tr.Line("hooks.env.single", scen, blk.name, reach, c15Ret(r.returned), "plain")
 	}
 }
 
